@@ -1,6 +1,7 @@
 package c07
 
 import (
+	"strings"
 	"testing"
 
 	"pgregory.net/rapid"
@@ -81,6 +82,27 @@ func (b *builder) batch(kind string, foreign []string) {
 			b.emit(script.CMsg{K: "D", Kind: 'P', Portal: p})
 		}
 		b.emit(script.CMsg{K: "E", Portal: p})
+	case "large-message-between":
+		// definitions, then a message of >= 4096 bytes (its own read-buffer allocation), more small
+		// traffic, then the earlier names and parameters are used
+		s, p := b.sname(), b.pname()
+		b.emit(script.CMsg{K: "P", Name: s, Query: b.q()})
+		b.emit(b.bind(p, s))
+		big := []byte(strings.Repeat("x", rapid.SampledFrom([]int{4090, 4096, 5000, 9000}).Draw(t, "big-size")))
+		other := "q"
+		if p == "q" {
+			other = "p"
+		}
+		b.emit(script.CMsg{K: "B", Portal: other, Name: s, Params: []*[]byte{&big}})
+		for i, n := 0, rapid.IntRange(1, 6).Draw(t, "small-after"); i < n; i++ {
+			b.emit(script.CMsg{K: "P", Name: "b", Query: b.q()})
+		}
+		b.emit(script.CMsg{K: "D", Kind: 'P', Portal: p})
+		b.emit(script.CMsg{K: "E", Portal: p})
+		if s != "b" {
+			b.emit(b.bind("", s))
+			b.emit(script.CMsg{K: "E", Portal: ""})
+		}
 	case "reparse-before-execute":
 		s, p := b.sname(), b.pname()
 		qa := b.q()
@@ -179,7 +201,7 @@ func (b *builder) batch(kind string, foreign []string) {
 	b.emit(script.CMsg{K: "S"})
 }
 
-var kinds = []string{"plain", "reparse-before-execute", "rebind-portal", "describe-after-reparse", "params-per-portal", "close-then-use", "same-name-on-two-connections"}
+var kinds = []string{"large-message-between", "plain", "reparse-before-execute", "rebind-portal", "describe-after-reparse", "params-per-portal", "close-then-use", "same-name-on-two-connections"}
 
 func genCase(t *rapid.T) Case {
 	c := Case{NConn: rapid.SampledFrom([]int{1, 1, 2, 2, 3}).Draw(t, "nconn")}
